@@ -171,6 +171,76 @@ def lean_stage(ctx, mod):
     return broken, obligations, discharged, theorems
 
 
+def _rss_tree_kb():
+    """resident memory of this process and its descendants (kB), from /proc"""
+    me = os.getpid()
+    kids = {}
+    rss = {}
+    for d in os.listdir("/proc"):
+        if not d.isdigit():
+            continue
+        try:
+            with open("/proc/%s/stat" % d) as f:
+                st = f.read()
+            ppid = int(st.rsplit(")", 1)[1].split()[1])
+            with open("/proc/%s/statm" % d) as f:
+                rss[int(d)] = int(f.read().split()[1]) * 4
+            kids.setdefault(ppid, []).append(int(d))
+        except (OSError, ValueError, IndexError):
+            continue
+    total, todo = 0, [me]
+    while todo:
+        p = todo.pop()
+        total += rss.get(p, 0)
+        todo += kids.get(p, [])
+    return total
+
+
+def start_watchdog(ctx):
+    """A check must end.  An implementation that no longer returns, or allocates without bound,
+    while the harness drives it would otherwise hang the check (or the machine): past a generous
+    bound - ten to twenty times what the check takes on the unchanged tree - that is reported per the
+    protocol of DESIGN 1.3 (the property is no longer shown to hold; no failing input isolated)."""
+    limit_s = float(os.environ.get("VERIF_WATCHDOG_S", "7200" if ctx.thorough else "1500"))
+    limit_kb = float(os.environ.get("VERIF_WATCHDOG_GB", "40")) * 1024 * 1024
+    try:
+        os.setpgrp()  # so that the watchdog can end every helper process the check started
+    except OSError:
+        pass
+
+    def loop():
+        while True:
+            time.sleep(5)
+            why = None
+            if ctx.elapsed() > limit_s:
+                why = "the check did not finish within %d s (it takes one to two minutes on the unchanged tree): an operation of the implementation no longer returns" % limit_s
+            else:
+                try:
+                    kb = _rss_tree_kb()
+                except Exception:
+                    kb = 0
+                if kb > limit_kb:
+                    why = "the check's processes hold %.0f GB of memory (under 3 GB on the unchanged tree): an operation of the implementation allocates without bound" % (kb / 1048576.0)
+            if why:
+                try:
+                    path = write_replay(ctx.prop, {"property": ctx.prop, "no_failing_input_found": True, "what": why, "seed": ctx.seed, "tier": ctx.tier, "notes": ctx.notes[-10:]})
+                    print("VIOLATION property=%s replay=%s no-failing-input-found" % (ctx.prop, path), flush=True)
+                    print("  " + why, flush=True)
+                finally:
+                    import signal
+
+                    try:
+                        signal.signal(signal.SIGTERM, signal.SIG_IGN)
+                        os.killpg(os.getpgrp(), signal.SIGTERM)
+                    except Exception:
+                        pass
+                    os._exit(1)
+
+    import threading
+
+    threading.Thread(target=loop, daemon=True).start()
+
+
 def main(argv=None):
     ap = argparse.ArgumentParser()
     ap.add_argument("prop")
@@ -179,6 +249,7 @@ def main(argv=None):
     args = ap.parse_args(argv)
     prop = args.prop.upper()
     ctx = Ctx(prop, args.tier, env.seed())
+    start_watchdog(ctx)
     try:
         mod = importlib.import_module("harness.props." + prop.lower())
         return run(ctx, mod, args)
